@@ -333,3 +333,6 @@ def run(ctx):
     # the stream reaches the caller's file where the directory says, wherever in the destination the dump starts (rules/families.py)
     from rules import families as _famd
     _famd.destination(ctx, "C05")
+    # the small accessors and pass-through wrappers the rules above look through by name return what their names say (rules/accessors.py)
+    from rules import accessors as _acc
+    _acc.rule_accessors(ctx, "C05")
